@@ -228,6 +228,20 @@ def gen(t):
         scope = 'impl %s' % T
         sig, body = src.fn('to_mt_string', scope)
         b = rsx.strip_comments(body)
+    # presence helpers the serialiser calls (`self.has_x()` whose body is one `self.f.is_some()` / `is_none()` expression): extracted too,
+    # with the body itself as the (strongest) postcondition, so that the layout proof sees through the call
+    for hn in sorted(set(re.findall(r'self\s*\.\s*([a-z_][a-z0-9_]*)\s*\(\s*\)', rsx.mask(b)))):
+        try:
+            hsig, hbody = src.fn(hn, 'impl %s' % T)
+        except Exception:
+            continue
+        hm = re.match(r'^\{\s*(self\s*\.\s*[a-z_][a-z0-9_]*\s*\.\s*is_(?:some|none)\s*\(\s*\))\s*\}$', rsx.strip_comments(hbody).strip())
+        if not hm or '-> bool' not in hsig:
+            continue
+        w('//@fn %s %s in "impl %s" impl=%s' % (f, hn, T, T))
+        w('ensures')
+        w('  [C02 mt%s.ser.helper.%s] r == %s' % (t, hn, re.sub(r'\s+', '', hm.group(1))))
+        w('//@end')
     w('//@fn %s to_mt_string in "%s" impl=%s' % (f, scope, T))
     w('ensures')
     w('  [C02,C01 mt%s.ser.order] r@ == finalize_spec(%s_text(self), false)' % (t, T))
